@@ -2,6 +2,7 @@ package spine
 
 import (
 	"fmt"
+	"reflect"
 	"sync"
 
 	"github.com/enbility/ship-go/logging"
@@ -66,17 +67,52 @@ func (r *FunctionData[T]) UpdateData(remoteWrite, persist bool, newData *T, filt
 		return nil, model.NewErrorTypeFromString(fmt.Sprintf("partial updates are not supported for type '%s'", util.Type[T]().Name()))
 	}
 
-	if r.data == nil {
-		r.data = new(T)
-	}
+	// run the update on a copy: r.data may be the very object a caller or an inbound message
+	// handed over (it is also the payload of the data change event), its lists share their
+	// backing arrays with every copy handed out by DataCopy, and the stored data has to stay
+	// exactly as it is if the update fails or is not to be persisted
+	work := cloneData(r.data)
 
-	updater := any(r.data).(model.Updater)
+	updater := any(work).(model.Updater)
 	data, success := updater.UpdateList(remoteWrite, persist, newData, filterPartial, filterDelete)
 	if !success {
 		return nil, model.NewErrorTypeFromString("update failed, likely not allowed to write")
 	}
 
+	if persist {
+		r.data = work
+	}
+
 	return data, nil
+}
+
+// returns a copy of data (or an empty T if data is nil) whose lists have their own backing arrays,
+// so that the in-place writes of model.UpdateList do not reach the original
+func cloneData[T any](data *T) *T {
+	result := new(T)
+	if data == nil {
+		return result
+	}
+
+	*result = *data
+
+	v := reflect.ValueOf(result).Elem()
+	if v.Kind() != reflect.Struct {
+		return result
+	}
+
+	for i := 0; i < v.NumField(); i++ {
+		f := v.Field(i)
+		if f.Kind() != reflect.Slice || f.IsNil() || !f.CanSet() {
+			continue
+		}
+
+		list := reflect.MakeSlice(f.Type(), f.Len(), f.Len())
+		reflect.Copy(list, f)
+		f.Set(list)
+	}
+
+	return result
 }
 
 func (r *FunctionData[T]) DataCopyAny() any {
